@@ -91,6 +91,32 @@ pub fn corpus(thorough: bool) -> Vec<Program> {
             Module { name: "o.oal".into(), stmts: vec![let_("c", E::Prim(Prim::Bool)), let_("c2", E::Prim(Prim::Str))] },
         ],
     });
+    // collisions (F10): which of two clashing things wins may be unspecified, but it must not
+    // depend on the process; and two imports that provide the same name, under no qualifier and
+    // under the same qualifier, the name being used
+    take(9, if thorough { 1 } else { 3 }, &mut out);
+    for q in [None, Some("q".to_owned())] {
+        let u = |n: &str| match &q {
+            Some(q) => qvar(q, n),
+            None => var(n),
+        };
+        out.push(Program {
+            modules: vec![
+                Module {
+                    name: "main.oal".into(),
+                    stmts: vec![
+                        Stmt::Use("a.oal".into(), q.clone()),
+                        Stmt::Use("b.oal".into(), q.clone()),
+                        Stmt::Use("c.oal".into(), q.clone()),
+                        Stmt::Res(rel(uri_lit(&["items"]), vec![xfer(Method::Get, content(obj(vec![prop("i", u("item")), prop("o", u("other"))])))])),
+                    ],
+                },
+                Module { name: "a.oal".into(), stmts: vec![let_("item", obj(vec![prop("id", E::Prim(Prim::Num))])), let_("other", E::Prim(Prim::Num))] },
+                Module { name: "b.oal".into(), stmts: vec![let_("item", obj(vec![prop("uuid", E::Prim(Prim::Str))])), let_("other", E::Prim(Prim::Str))] },
+                Module { name: "c.oal".into(), stmts: vec![let_("item", obj(vec![prop("key", E::Prim(Prim::Bool))])), let_("other", E::Prim(Prim::Bool))] },
+            ],
+        });
+    }
     out.push(large_program(if thorough { 1500 } else { 900 }));
     out
 }
